@@ -124,7 +124,7 @@ func (k *c14Cast) run(cfg c14Cfg, hist []int) (key string, viols []c14Viol, trac
 			}
 		}
 		serve()
-		for _, e := range hist {
+		step := func(e int) (abort bool) {
 			name := c14Events[e]
 			switch {
 			case strings.HasPrefix(name, "lookup"):
@@ -135,7 +135,7 @@ func (k *c14Cast) run(cfg c14Cfg, hist []int) (key string, viols []c14Viol, trac
 					if !v2alive {
 						// a cleaned-up instance is not used any more
 						key = ""
-						return
+						return true
 					}
 				}
 				net.ResetHits()
@@ -215,32 +215,38 @@ func (k *c14Cast) run(cfg c14Cfg, hist []int) (key string, viols []c14Viol, trac
 			case name == "flipA(c1->revoked)":
 				if revokedA {
 					key = ""
-					return
+					return true
 				}
 				revokedA = true
 			case name == "downA":
 				if downA {
 					key = ""
-					return
+					return true
 				}
 				downA = true
 				serve()
 			case name == "upA":
 				if !downA {
 					key = ""
-					return
+					return true
 				}
 				downA = false
 				serve()
 			case name == "cleanup(V2)":
 				if !v2alive {
 					key = ""
-					return
+					return true
 				}
 				v2alive = false
 				v[1].Chk.Cleanup()
 				// Flush of the shared table is allowed to drop entries; the model keeps them (a hit after a flush would
 				// simply not happen). Entries the model holds are upper bounds for what may be served.
+			}
+					return false
+		}
+		for _, e := range hist {
+			if step(e) {
+				return
 			}
 		}
 		// canonical key: model entries with age / last-read buckets, responder state, instances
@@ -274,6 +280,16 @@ func (k *c14Cast) run(cfg c14Cfg, hist []int) (key string, viols []c14Viol, trac
 		}
 		sort.Strings(lf)
 		key = fmt.Sprintf("%v|rev=%v down=%v v2=%v failed=%v", parts, revokedA, downA, v2alive, lf)
+		// final observation (after the key was taken): every history ends with a lookup of each certificate on V1, judged
+		// like any other lookup - also the histories which are then merged into a state seen before
+		if n := len(hist); n > 0 && !strings.HasPrefix(c14Events[hist[n-1]], "lookup") {
+			trace = append(trace, "final:")
+			for _, e := range []int{0, 1, 2} {
+				if step(e) {
+					break
+				}
+			}
+		}
 		for _, w := range v {
 			_ = w
 		}
